@@ -105,6 +105,17 @@ def _cpu_ticks(pids):
     return tot
 
 
+def _proc_states(pids):
+    out = {}
+    for pid in pids:
+        try:
+            with open("/proc/%d/stat" % pid) as f:
+                out[str(pid)] = f.read().rsplit(")", 1)[1].split()[0]
+        except OSError:
+            out[str(pid)] = "gone"
+    return out
+
+
 class HangGuard:
     """Logical hang detection around one call (quick tier too): if the call has not come back after `patience` seconds (cases take
     well under a second), the guard looks for *evidence* that it never will: the main thread is blocked in the pool's wait/get, and
@@ -152,12 +163,13 @@ class HangGuard:
                             handlers_dead.append(name)
             except Exception:
                 pass
-        ev = dict(stack_tail=["%s:%s" % (os.path.basename(f.filename), f.name) for f in stack[-4:]], blocked_in_pool_wait=in_wait,
-                  live_workers=len(kids), worker_cpu_ticks_in_5s=t1 - t0, outstanding_results=outstanding, dead_pool_threads=handlers_dead)
+        ev = dict(stack_tail=["%s:%s:%d" % (os.path.basename(f.filename), f.name, f.lineno) for f in stack[-7:]], blocked_in_pool_wait=in_wait,
+                  live_workers=len(kids), worker_cpu_ticks_in_5s=t1 - t0, outstanding_results=outstanding, dead_pool_threads=handlers_dead,
+                  worker_states=_proc_states(kids))
         self.res.counters["hang_evidence_" + self.label[:40]] = ev
         if in_wait and outstanding > 0 and (handlers_dead or workers_idle):
             self.res.violation("%s: the call neither returns nor raises: after %ds the main thread is blocked in %s waiting for %d result(s) while %s" % (
-                self.label, int(self.patience) + 5, ev["stack_tail"][:2], outstanding,
+                self.label, int(self.patience) + 5, ev["stack_tail"][-4:], outstanding,
                 ("the pool's %s thread is dead" % handlers_dead[0]) if handlers_dead else ("its %d worker(s) do no work" % len(kids))), self.case)
         else:
             self.res.inconclusive.append("%s: watchdog fired without the logical evidence of a hang: %s" % (self.label, ev))
